@@ -233,6 +233,9 @@ func c14Cfgs() []*bsCfg {
 		base("sync-fault-S1", 1, 5, syn(1, "S1"), []bsOp{T(1), T(2), H(1), D(1)}),
 		base("sync-fault-D1", 1, 6, syn(1, "D1"), []bsOp{T(1), T(2), H(1), D(1)}),
 		base("sync-fault-G1", 1, 5, syn(1, "G1"), []bsOp{T(1), T(2), H(1), D(1)}),
+		// the secondary tier refuses to delete (twice) while a demoted copy passes its deadline: the expired copy must still not be served
+		adv(base("sync-expiry-fault-D", 1, 5, syn(1, "D11"), []bsOp{Q(1), T(2), H(1), D(1)}), 1),
+		adv(ld(base("sync-loading-expiry-fault-D", 1, 5, syn(1, "D11"), []bsOp{Q(1), T(2), L(1), D(1)}), long), 1),
 		// demotion pending while other calls run (M / W separate), 1-2 workers
 		adv(base("async-simple", 1, 5, asy(1, 1, 0), []bsOp{T(1), Q(1), T(2), H(1), D(1)}), 1),
 		base("async-2workers", 1, 4, asy(1, 2, 0), []bsOp{T(1), T(2), H(1), D(1)}),
